@@ -227,7 +227,10 @@ class DashOption:
     def unquoted_url_or_none_from_string(value: str):
         if value.lower() in ['', 'none']:
             return None
-        return urllib.parse.unquote_plus(value)
+        # the query string layer has already removed the URL escaping that
+        # quoted_url_or_none_to_string() added; decoding a second time would
+        # change a '+' or a '%XX' that is part of the URL itself
+        return value
 
     @staticmethod
     def quoted_url_or_none_to_string(value: str | None):
